@@ -7,7 +7,9 @@
   conditions that findings D13 / D14 / D15 violate).  Main theorem: `C11_tree_partial`.
 -/
 import KodaModel.Properties.C11Containers
+import KodaModel.Properties.C11Record
 import KodaModel.Properties.C01
+import KodaModel.Properties.C04
 
 namespace Koda
 
@@ -208,6 +210,23 @@ def isDfltCoerce : Option CoerceK → Bool
   | some .dflt => true
   | _ => false
 
+/-- the texts of string keys -/
+def keyTexts : List PyVal → Option (List (List Nat))
+  | [] => some []
+  | .str s :: ks => (keyTexts ks).map (fun ts => s :: ts)
+  | _ :: _ => none
+
+def textsNodup : List (List Nat) → Bool
+  | [] => true
+  | t :: ts => !ts.contains t && textsNodup ts
+
+/-- record configurations of the fragment: no whole-object checks, no coercer, distinct string keys,
+    one requiredness flag per key -/
+def recCfgOK (cfg : RecCfg) (n : Nat) : Bool :=
+  cfg.oc.isNone && cfg.aoc.isNone && cfg.coerce.isNone &&
+  (match keyTexts cfg.keys with | some ts => textsNodup ts | none => false) &&
+  cfg.keys.length == n && cfg.reqs.length == n
+
 def isDefaultNone : V → Bool
   | .noneV _ none => true
   | _ => false
@@ -222,6 +241,7 @@ def frag : V → Bool
   | .optional _ nv inner => isDefaultNone nv && frag inner
   | .knr _ inner => frag inner
   | .ntuple _ fs oc c _ => oc.isNone && isDfltCoerce c && fragL fs
+  | .record _ cfg vs => recCfgOK cfg vs.length && fragL vs
   | _ => false
 termination_by structural v => v
 def fragL : List V → Bool
@@ -239,6 +259,9 @@ def acc : V → PyVal → Bool
   | .optional _ _ inner, x => isNoneV x || acc inner x
   | .knr _ inner, x => acc inner x
   | .ntuple _ fs _ _ _, x => isListV x && (decide ((listItems x).length = fs.length) && accZip fs (listItems x))
+  | .record _ cfg vs, x =>
+    isDictV x && ((dictKvs x).all (fun p => memL p.1 cfg.keys || !cfg.failUnknown) &&
+      accFields cfg.keys cfg.reqs vs (dictKvs x))
   | _, _ => false
 termination_by structural v => v
 def accAny : List V → PyVal → Bool
@@ -250,6 +273,12 @@ def accZip : List V → List PyVal → Bool
   | v :: vs, y :: ys => acc v y && accZip vs ys
   | _, _ => true
 termination_by structural vs => vs
+/-- key by key: a present key's value is acceptable to its field, an absent key is not required -/
+def accFields : List PyVal → List Bool → List V → List (PyVal × PyVal) → Bool
+  | k :: ks, r :: rs, v :: vs, kvs =>
+    (match dictGet kvs k with | some xv => acc v xv | none => !r) && accFields ks rs vs kvs
+  | _, _, _, _ => true
+termination_by structural _ _ vs => vs
 end
 
 /-- number of variants acceptable to `x` -/
@@ -268,6 +297,7 @@ def ok : V → PyVal → Bool
   | .optional _ _ inner, x => isNoneV x || ok inner x
   | .knr _ inner, x => ok inner x
   | .ntuple _ fs _ _ _, x => !(isListV x) || okZip fs (listItems x)
+  | .record _ cfg vs, x => okFields cfg.keys vs (dictKvs x)
   | _, _ => true
 termination_by structural v => v
 def okAll : List V → PyVal → Bool
@@ -278,6 +308,11 @@ def okZip : List V → List PyVal → Bool
   | v :: vs, y :: ys => ok v y && okZip vs ys
   | _, _ => true
 termination_by structural vs => vs
+def okFields : List PyVal → List V → List (PyVal × PyVal) → Bool
+  | k :: ks, v :: vs, kvs =>
+    (match dictGet kvs k with | some xv => ok v xv | none => true) && okFields ks vs kvs
+  | _, _, _ => true
+termination_by structural _ vs => vs
 end
 
 mutual
@@ -288,6 +323,7 @@ def sfuel : V → Nat
   | .optional _ _ inner => max (sfuel inner) 1
   | .knr _ inner => sfuel inner
   | .ntuple _ fs _ _ _ => sfuelL fs + 1
+  | .record _ _ vs => max (sfuelL vs) 1 + 1
   | _ => 2
 termination_by structural v => v
 def sfuelL : List V → Nat
@@ -528,6 +564,127 @@ theorem node_ntuple_validator (o : Oracle) (env : Nat → V) (vid lp : Nat) (fs 
     obtain ⟨k, hk⟩ := hg
     exact ⟨1, .invalid (.mk k x vid []), [], by simp [run, ntupleStep, ntuplePre, hk], by simp [Out.verdict, hl']⟩
 
+
+/-! ### records: validator side -/
+
+theorem recGate_dict (o : Oracle) (cfg : RecCfg) (hc : cfg.coerce = none) (oid : Nat) (kvs : List (PyVal × PyVal)) :
+    recGate o cfg (.dict oid kvs) = .acc (.dict oid kvs) [] := by
+  unfold recGate
+  cases cfg.kind <;> simp [hc, PyVal.ty, PyVal.baseTy]
+
+theorem recGate_nondict (o : Oracle) (cfg : RecCfg) (hc : cfg.coerce = none) (x : PyVal) (hj : isJson x = true)
+    (hd : isDictV x = false) : ∃ k, recGate o cfg x = .rej k [] := by
+  unfold recGate
+  cases x <;> simp [isDictV, isJson] at hd hj <;> cases cfg.kind <;> simp [hc, PyVal.ty, PyVal.baseTy]
+
+/-- the present fields are decided at fuel `N` -/
+def FieldsDecided (o : Oracle) (env : Nat → V) (N : Nat) (kvs : List (PyVal × PyVal)) : List PyVal → List V → Prop
+  | k :: ks, v :: vs =>
+    (∀ xv, dictGet kvs k = some xv → ∃ out t, run o env .sync N v xv = some (out, t) ∧ out.verdict = some (acc v xv)) ∧
+    FieldsDecided o env N kvs ks vs
+  | _, _ => True
+
+theorem FieldsDecided.mono {o : Oracle} {env : Nat → V} {kvs : List (PyVal × PyVal)} {N M : Nat} (hm : N ≤ M) :
+    ∀ {ks : List PyVal} {vs : List V}, FieldsDecided o env N kvs ks vs → FieldsDecided o env M kvs ks vs
+  | [], _, _ => by simp [FieldsDecided]
+  | _ :: _, [], _ => by simp [FieldsDecided]
+  | k :: ks, v :: vs, h => by
+    refine ⟨fun xv hx => ?_, FieldsDecided.mono hm h.2⟩
+    obtain ⟨out, t, hr, hv⟩ := h.1 xv hx
+    exact ⟨out, t, run_mono_le o env .sync hm v xv _ hr, hv⟩
+
+theorem common_fuel_fields (o : Oracle) (env : Nat → V) (kvs : List (PyVal × PyVal)) :
+    ∀ (ks : List PyVal) (vs : List V),
+      (∀ p ∈ ks.zip vs, ∀ xv, dictGet kvs p.1 = some xv → VDecides o env p.2 xv (acc p.2 xv)) →
+      ∃ N, FieldsDecided o env N kvs ks vs
+  | [], _, _ => ⟨0, by simp [FieldsDecided]⟩
+  | _ :: _, [], _ => ⟨0, by simp [FieldsDecided]⟩
+  | k :: ks, v :: vs, h => by
+    obtain ⟨N1, h1⟩ := common_fuel_fields o env kvs ks vs (fun p hp => h p (by simp [hp]))
+    cases hg : dictGet kvs k with
+    | none => exact ⟨N1, ⟨fun xv hx => by simp [hg] at hx, h1⟩⟩
+    | some xv =>
+      obtain ⟨N2, h2⟩ := (h (k, v) (by simp) xv hg).at_fuel
+      refine ⟨max N1 N2, ⟨fun xv' hx' => ?_, h1.mono (Nat.le_max_left _ _)⟩⟩
+      rw [hg] at hx'
+      cases hx'
+      exact h2 _ (Nat.le_max_right _ _)
+
+theorem recLoop_decided (o : Oracle) (env : Nat → V) (N vid : Nat) (dv : PyVal) (kvs : List (PyVal × PyVal)) :
+    ∀ (ks : List PyVal) (rs : List Bool) (vs : List V), FieldsDecided o env N kvs ks vs →
+      ∃ r, recLoop vid dv kvs (vs.map (run o env .sync N)) ks rs = some r ∧ r.r = none ∧
+        r.ks.isEmpty = accFields ks rs vs kvs
+  | [], rs, vs, _ => ⟨⟨[], [], [], [], none⟩, by cases vs <;> simp [recLoop], rfl, by cases rs <;> cases vs <;> simp [accFields]⟩
+  | k :: ks, [], vs, _ => ⟨⟨[], [], [], [], none⟩, by cases vs <;> simp [recLoop], rfl, by cases vs <;> simp [accFields]⟩
+  | k :: ks, r :: rs, [], _ => ⟨⟨[], [], [], [], none⟩, by simp [recLoop], rfl, by simp [accFields]⟩
+  | k :: ks, r :: rs, v :: vs, h => by
+    obtain ⟨r', hr', h1, h2⟩ := recLoop_decided o env N vid dv kvs ks rs vs h.2
+    cases hg : dictGet kvs k with
+    | none =>
+      cases r with
+      | true =>
+        refine ⟨{ r' with got := none :: r'.got, ks := k :: r'.ks, errs := .mk .missingKey dv vid [] :: r'.errs }, ?_, h1, ?_⟩
+        · simp [recLoop, hg, hr']
+        · simp [accFields, hg]
+      | false =>
+        refine ⟨{ r' with got := none :: r'.got }, ?_, h1, ?_⟩
+        · simp [recLoop, hg, hr']
+        · simp [accFields, hg, h2]
+    | some xv =>
+      obtain ⟨out, t, hx, hv⟩ := h.1 xv hg
+      cases out with
+      | raised e => simp [Out.verdict] at hv
+      | valid w =>
+        simp only [Out.verdict, Option.some.injEq] at hv
+        refine ⟨{ r' with got := some w :: r'.got, t := t ++ r'.t }, ?_, h1, ?_⟩
+        · simp [recLoop, hg, hx, hr']
+        · simp [accFields, hg, h2, ← hv]
+      | invalid e =>
+        simp only [Out.verdict, Option.some.injEq] at hv
+        refine ⟨{ r' with got := none :: r'.got, ks := k :: r'.ks, errs := e :: r'.errs, t := t ++ r'.t }, ?_, h1, ?_⟩
+        · simp [recLoop, hg, hx, hr']
+        · simp [accFields, hg, ← hv]
+
+theorem all_known_iff (kvs : List (PyVal × PyVal)) (keys : List PyVal) (fu : Bool) :
+    kvs.all (fun p => memL p.1 keys || !fu) = !(fu && hasUnknownKey keys kvs) := by
+  cases fu
+  · simp
+  · simp only [Bool.not_true, Bool.or_false, Bool.true_and, hasUnknownKey]
+    induction kvs with
+    | nil => rfl
+    | cons p ps ih => simp [ih, Bool.not_or]
+
+theorem node_record_validator (o : Oracle) (env : Nat → V) (vid : Nat) (cfg : RecCfg) (vs : List V) (x : PyVal)
+    (hj : isJson x = true) (hoc : cfg.oc = none) (haoc : cfg.aoc = none) (hco : cfg.coerce = none)
+    (hkids : ∀ p ∈ cfg.keys.zip vs, ∀ xv, dictGet (dictKvs x) p.1 = some xv → VDecides o env p.2 xv (acc p.2 xv)) :
+    VDecides o env (.record vid cfg vs) x
+      (isDictV x && ((dictKvs x).all (fun p => memL p.1 cfg.keys || !cfg.failUnknown) &&
+        accFields cfg.keys cfg.reqs vs (dictKvs x))) := by
+  by_cases hd : isDictV x = true
+  · obtain ⟨oid, kvs, rfl⟩ : ∃ oid kvs, x = .dict oid kvs := by
+      cases x <;> simp [isDictV] at hd
+      exact ⟨_, _, rfl⟩
+    simp only [dictKvs] at hkids ⊢
+    simp only [isDictV, Bool.true_and, all_known_iff]
+    by_cases hu : (cfg.failUnknown && hasUnknownKey cfg.keys kvs) = true
+    · refine ⟨1, .invalid (.mk (.extraKeys cfg.keys) (.dict oid kvs) vid []), [], ?_, by simp [Out.verdict, hu]⟩
+      simp [run, recordStep, recPre, haoc, recGate_dict o cfg hco, dictItems, hu]
+    · have hu' : (cfg.failUnknown && hasUnknownKey cfg.keys kvs) = false := by simpa using hu
+      obtain ⟨N, hN⟩ := common_fuel_fields o env kvs cfg.keys vs hkids
+      obtain ⟨r, hr, hrn, hre⟩ := recLoop_decided o env N vid (.dict oid kvs) kvs cfg.keys cfg.reqs vs hN
+      have hpre : recPre o .sync vid cfg (.dict oid kvs) = .inr (.dict oid kvs, kvs, []) := by
+        simp [recPre, haoc, recGate_dict o cfg hco, dictItems, hu']
+      refine ⟨N + 1, (recFinish .sync vid cfg (.dict oid kvs) [] r).1, (recFinish .sync vid cfg (.dict oid kvs) [] r).2, ?_, ?_⟩
+      · simp only [run]
+        rw [recordStep_inr hpre, hr]
+        rfl
+      · simp only [recFinish, hrn, hu', Bool.not_false, Bool.true_and]
+        rw [← hre]
+        cases he : r.ks.isEmpty <;> simp [he, Out.verdict, runObjCheck, runAObjCheck, hoc, haoc]
+  · have hd' : isDictV x = false := by simpa using hd
+    obtain ⟨k, hk⟩ := recGate_nondict o cfg hco x hj hd'
+    exact ⟨1, .invalid (.mk k x vid []), [], by simp [run, recordStep, recPre, haoc, hk], by simp [Out.verdict, hd']⟩
+
 /-! ### assembling the tree -/
 
 /-- the schemas `js` of the variants `vs` decide, one by one, what the variants accept -/
@@ -688,6 +845,227 @@ theorem zip_decides (pr : Printer) (o : Oracle) (env : Nat → V) (root : J) (N 
       rcases hp with rfl | hp
       · exact hv
       · exact h3 p hp
+
+
+/-! ### records: schema side -/
+
+theorem keyTexts_spec : ∀ (ks : List PyVal) (ts : List (List Nat)), keyTexts ks = some ts → ks = ts.map PyVal.str
+  | [], ts, h => by simp [keyTexts] at h; subst h; rfl
+  | .str s :: ks, ts, h => by
+    simp only [keyTexts, Option.map_eq_some_iff] at h
+    obtain ⟨ts', h1, rfl⟩ := h
+    simp [keyTexts_spec ks ts' h1]
+  | .none :: _, _, h => by simp [keyTexts] at h
+  | .bool _ :: _, _, h => by simp [keyTexts] at h
+  | .int _ :: _, _, h => by simp [keyTexts] at h
+  | .float _ :: _, _, h => by simp [keyTexts] at h
+  | .bytes _ :: _, _, h => by simp [keyTexts] at h
+  | .decimal _ :: _, _, h => by simp [keyTexts] at h
+  | .uuid _ :: _, _, h => by simp [keyTexts] at h
+  | .date _ :: _, _, h => by simp [keyTexts] at h
+  | .datetime _ _ :: _, _, h => by simp [keyTexts] at h
+  | .list _ _ :: _, _, h => by simp [keyTexts] at h
+  | .tuple _ _ :: _, _, h => by simp [keyTexts] at h
+  | .set _ _ :: _, _, h => by simp [keyTexts] at h
+  | .dict _ _ :: _, _, h => by simp [keyTexts] at h
+  | .just _ _ :: _, _, h => by simp [keyTexts] at h
+  | .nothing :: _, _, h => by simp [keyTexts] at h
+  | .inst _ _ _ _ _ :: _, _, h => by simp [keyTexts] at h
+  | .sub _ _ :: _, _, h => by simp [keyTexts] at h
+
+theorem labelsText_strs (pr : Printer) : ∀ (ts : List (List Nat)), labelsText pr (ts.map PyVal.str) = some ts
+  | [] => rfl
+  | t :: ts => by simp [labelsText, labelText, labelsText_strs pr ts]
+
+theorem hasKey_zip (ts : List (List Nat)) (js : List J) (t : List Nat) (h : ts.contains t = false) :
+    hasKey (ts.zip js) t = false := by
+  induction ts generalizing js with
+  | nil => rfl
+  | cons a as ih =>
+    cases js with
+    | nil => rfl
+    | cons j js =>
+      simp only [List.contains_cons, Bool.or_eq_false_iff] at h
+      simp only [List.zip_cons_cons, hasKey, List.any_cons, Bool.or_eq_false_iff]
+      refine ⟨?_, ih js h.2⟩
+      have := h.1
+      simpa [Bool.beq_comm] using this
+
+theorem foldl_jset_nodup : ∀ (ts : List (List Nat)) (js : List J) (acc0 : JObj), textsNodup ts = true →
+    (∀ t ∈ ts, hasKey acc0 t = false) →
+    (ts.zip js).foldl (fun acc p => jset acc p.1 p.2) acc0 = acc0 ++ ts.zip js
+  | [], _, acc0, _, _ => by simp
+  | _ :: _, [], acc0, _, _ => by simp
+  | t :: ts, j :: js, acc0, hn, hd => by
+    simp only [textsNodup, Bool.and_eq_true, Bool.not_eq_true'] at hn
+    simp only [List.zip_cons_cons, List.foldl_cons]
+    rw [jset_absent acc0 t j (hd t (by simp))]
+    rw [foldl_jset_nodup ts js (acc0 ++ [(t, j)]) hn.2 (by
+      intro t' ht'
+      rw [hasKey_append, hd t' (by simp [ht'])]
+      simp only [hasKey, List.any_cons, List.any_nil, Bool.or_false, Bool.false_or]
+      apply Bool.eq_false_iff.2
+      intro hh
+      have : t = t' := by simpa using hh
+      subst this
+      exact absurd ht' (by simpa using hn.1))]
+    simp
+
+theorem insertText_all (f : List Nat → Bool) (x : List Nat) : ∀ (l : List (List Nat)),
+    (insertText x l).all f = (f x && l.all f)
+  | [] => by simp [insertText]
+  | y :: ys => by
+    simp only [insertText]
+    split
+    · simp
+    · simp only [List.all_cons, insertText_all f x ys]
+      cases f x <;> cases f y <;> simp
+
+theorem sortTexts_all (f : List Nat → Bool) : ∀ (l : List (List Nat)), (sortTexts l).all f = l.all f
+  | [] => rfl
+  | x :: xs => by
+    have := sortTexts_all f xs
+    simp only [sortTexts, List.foldr_cons] at this ⊢
+    rw [insertText_all, this]
+    simp
+
+theorem dictHas_get (kvs : List (PyVal × PyVal)) (k : PyVal) : dictHas kvs k = (dictGet kvs k).isSome := by
+  induction kvs with
+  | nil => rfl
+  | cons p ps ih =>
+    obtain ⟨k', v'⟩ := p
+    simp only [dictHas, List.any_cons, dictGet] at ih ⊢
+    by_cases h : pyEq k' k = true
+    · simp [h]
+    · have h' : pyEq k' k = false := by simpa using h
+      simp [h', ih]
+
+theorem dictGet_mem : ∀ (kvs : List (PyVal × PyVal)) (k v : PyVal), dictGet kvs k = some v → ∃ p ∈ kvs, p.2 = v
+  | [], _, _, h => by simp [dictGet] at h
+  | (k', v') :: rest, k, v, h => by
+    simp only [dictGet] at h
+    split at h
+    · cases h; exact ⟨(k', v'), by simp, rfl⟩
+    · obtain ⟨p, hp, hv⟩ := dictGet_mem rest k v h
+      exact ⟨p, by simp [hp], hv⟩
+
+theorem isJson_dict (oid : Nat) (kvs : List (PyVal × PyVal)) (h : isJson (.dict oid kvs) = true) :
+    (∀ p ∈ kvs, ∃ nm, p.1 = .str nm) ∧ ∀ p ∈ kvs, isJson p.2 = true := by
+  simp only [isJson] at h
+  induction kvs with
+  | nil => exact ⟨fun p hp => by simp at hp, fun p hp => by simp at hp⟩
+  | cons q qs ih =>
+    obtain ⟨k, v⟩ := q
+    simp only [isJsonO, Bool.and_eq_true] at h
+    obtain ⟨⟨hk, hv⟩, hr⟩ := h
+    obtain ⟨h1, h2⟩ := ih hr
+    refine ⟨?_, ?_⟩
+    · intro p hp
+      rcases List.mem_cons.1 hp with rfl | hp
+      · cases k <;> simp at hk; exact ⟨_, rfl⟩
+      · exact h1 p hp
+    · intro p hp
+      rcases List.mem_cons.1 hp with rfl | hp
+      · exact hv
+      · exact h2 p hp
+
+theorem memL_strs (nm : List Nat) : ∀ (ts : List (List Nat)), memL (.str nm) (ts.map PyVal.str) = ts.contains nm
+  | [] => rfl
+  | t :: ts => by
+    have := memL_strs nm ts
+    simp only [memL, List.map_cons, List.any_cons, List.contains_cons] at this ⊢
+    rw [this]
+    simp [pyEq, PyVal.unsub, Bool.beq_comm]
+
+/-- the field schemas agree with the field validators on the values found under their keys -/
+def FieldsAgree (g : J → PyVal → Bool) (kvs : List (PyVal × PyVal)) : List (List Nat) → List V → List J → Prop
+  | t :: ts, v :: vs, j :: js =>
+    (∀ val, dictGet kvs (.str t) = some val → g j val = acc v val) ∧ FieldsAgree g kvs ts vs js
+  | _, _, _ => True
+
+theorem fields_formula (g : J → PyVal → Bool) (kvs : List (PyVal × PyVal)) :
+    ∀ (ts : List (List Nat)) (rs : List Bool) (vs : List V) (js : List J),
+      ts.length = vs.length → rs.length = vs.length → js.length = vs.length → FieldsAgree g kvs ts vs js →
+      ((((ts.zip rs).filter (·.2)).map (·.1)).all (fun nm => dictHas kvs (.str nm)) &&
+        (ts.zip js).all (propOk g kvs)) =
+      accFields (ts.map PyVal.str) rs vs kvs
+  | [], [], [], [], _, _, _, _ => rfl
+  | t :: ts, r :: rs, v :: vs, j :: js, h1, h2, h3, ha => by
+    have ih := fields_formula g kvs ts rs vs js (by simpa using h1) (by simpa using h2) (by simpa using h3) ha.2
+    simp only [List.map_cons, accFields, ← ih, List.zip_cons_cons, List.all_cons, propOk]
+    cases hg : dictGet kvs (.str t) with
+    | none =>
+      cases r
+      · simp [List.filter, hg]
+      · simp [List.filter, dictHas_get, hg]
+    | some val =>
+      have := ha.1 val hg
+      cases r
+      · simp only [List.filter, this]
+        cases acc v val <;> simp
+      · simp only [List.filter, List.map_cons, List.all_cons, dictHas_get, hg, Option.isSome_some, Bool.true_and, this]
+        cases acc v val <;> simp
+  | [], _ :: _, _, _, _, h2, _, _ => by cases ‹List V› <;> simp at *
+  | _ :: _, [], _, _, h1, h2, _, _ => by cases ‹List V› <;> simp at *
+  | [], [], _ :: _, _, h1, _, _, _ => by simp at h1
+  | [], [], [], _ :: _, _, _, h3, _ => by simp at h3
+  | _ :: _, _ :: _, [], _, h1, _, _, _ => by simp at h1
+  | _ :: _, _ :: _, _ :: _, [], _, _, h3, _ => by simp at h3
+
+
+theorem all_congr_mem {α : Type} (f g : α → Bool) : ∀ (l : List α), (∀ a ∈ l, f a = g a) → l.all f = l.all g
+  | [], _ => rfl
+  | a :: as, h => by
+    simp only [List.all_cons, h a (by simp), all_congr_mem f g as (fun b hb => h b (by simp [hb]))]
+
+theorem zip_map_fst {α β : Type} : ∀ (as : List α) (bs : List β), as.length = bs.length → (as.zip bs).map (·.1) = as
+  | [], [], _ => rfl
+  | a :: as, b :: bs, h => by simp [zip_map_fst as bs (by simpa using h)]
+  | [], _ :: _, h => by simp at h
+  | _ :: _, [], h => by simp at h
+
+/-- from the members' `TreeOK`: agreement of field schemas and field validators on the values found
+    under their keys, decidedness of the field schemas there, decidedness of the field validators there -/
+theorem fields_decide (pr : Printer) (o : Oracle) (env : Nat → V) (root : J) (N : Nat) (kvs : List (PyVal × PyVal))
+    (hjv : ∀ p ∈ kvs, isJson p.2 = true) :
+    ∀ (ts : List (List Nat)) (vs : List V) (js : List J),
+      AllZip (fun v j => toSchema pr none [] [] v = .ok j) vs js → (∀ v ∈ vs, TreeOK pr o env root v) →
+      okFields (ts.map PyVal.str) vs kvs = true → sfuelL vs ≤ N →
+      FieldsAgree (fun j y => evalSchema root none N j y == some true) kvs ts vs js ∧
+      (∀ p ∈ ts.zip js, ∀ val, dictGet kvs (.str p.1) = some val →
+        DecidesAt root none p.2 N val (evalSchema root none N p.2 val == some true)) ∧
+      (∀ p ∈ (ts.map PyVal.str).zip vs, ∀ xv, dictGet kvs p.1 = some xv → VDecides o env p.2 xv (acc p.2 xv))
+  | [], vs, js, _, _, _, _ => ⟨by cases vs <;> cases js <;> simp [FieldsAgree], fun p hp => by simp at hp, fun p hp => by simp at hp⟩
+  | t :: ts, [], [], _, _, _, _ => ⟨by simp [FieldsAgree], fun p hp => by simp at hp, fun p hp => by simp at hp⟩
+  | t :: ts, v :: vs, j :: js, .cons hj hrest, hmem, hok, hN => by
+    simp only [List.map_cons, okFields, Bool.and_eq_true] at hok
+    simp only [sfuelL] at hN
+    obtain ⟨h1, h2, h3⟩ := fields_decide pr o env root N kvs hjv ts vs js hrest (fun w hw => hmem w (by simp [hw])) hok.2 (by omega)
+    have hval : ∀ val, dictGet kvs (.str t) = some val →
+        VDecides o env v val (acc v val) ∧ DecidesAt root none j N val (acc v val) := by
+      intro val hg
+      obtain ⟨p, hp, hpv⟩ := dictGet_mem kvs _ _ hg
+      have hjs : isJson val = true := by rw [← hpv]; exact hjv p hp
+      have hokv : ok v val = true := by simpa [hg] using hok.1
+      obtain ⟨hv, hs⟩ := hmem v (by simp) val hjs hokv
+      exact ⟨hv, (hs j hj).mono (by omega)⟩
+    have hgv : ∀ val, dictGet kvs (.str t) = some val → (evalSchema root none N j val == some true) = acc v val := by
+      intro val hg
+      rw [(hval val hg).2 N (Nat.le_refl N)]
+      cases acc v val <;> rfl
+    refine ⟨⟨hgv, h1⟩, ?_, ?_⟩
+    · intro p hp val hg
+      simp only [List.zip_cons_cons, List.mem_cons] at hp
+      rcases hp with rfl | hp
+      · simp only [] at hg ⊢
+        rw [hgv val hg]
+        exact (hval val hg).2
+      · exact h2 p hp val hg
+    · intro p hp xv hg
+      simp only [List.map_cons, List.zip_cons_cons, List.mem_cons] at hp
+      rcases hp with rfl | hp
+      · exact (hval xv hg).1
+      · exact h3 p hp xv hg
 
 mutual
 /-- **C11 for whole trees, partial**: for every tree of the fragment (any depth, any width), every JSON
@@ -875,7 +1253,87 @@ theorem C11_tree_partial (pr : Printer) (o : Oracle) (env : Nat → V) (root : J
         rw [h2, ← hlen] at this
         simpa [acc, sfuel, ntupleObj, hlen] using this
   | .map .., hf, _, _, _ => by simp [frag] at hf
-  | .record .., hf, _, _, _ => by simp [frag] at hf
+  | .record vid cfg vs, hf, x, hx, hok => by
+    simp only [frag, Bool.and_eq_true] at hf
+    obtain ⟨hcfg, hfl⟩ := hf
+    simp only [recCfgOK, Bool.and_eq_true, Option.isNone_iff_eq_none, beq_iff_eq] at hcfg
+    obtain ⟨⟨⟨⟨⟨hoc, haoc⟩, hco⟩, hkeys⟩, hlk⟩, hlr⟩ := hcfg
+    cases hkt : keyTexts cfg.keys with
+    | none => simp [hkt] at hkeys
+    | some ts =>
+      have hnd : textsNodup ts = true := by simpa [hkt] using hkeys
+      have hks : cfg.keys = ts.map PyVal.str := keyTexts_spec _ _ hkt
+      have hlt : ts.length = vs.length := by rw [← hlk, hks]; simp
+      have hmem : ∀ v ∈ vs, TreeOK pr o env root v := (C11_tree_partialL pr o env root vs hfl).mem
+      have hjd : (∀ p ∈ dictKvs x, ∃ nm, p.1 = .str nm) ∧ ∀ p ∈ dictKvs x, isJson p.2 = true := by
+        cases x with
+        | dict oid kvs => exact isJson_dict oid kvs hx
+        | _ => exact ⟨fun p hp => by simp [dictKvs] at hp, fun p hp => by simp [dictKvs] at hp⟩
+      have hokf : okFields (ts.map PyVal.str) vs (dictKvs x) = true := by simpa [ok, hks] using hok
+      refine ⟨?_, ?_⟩
+      · -- validator side: the children are decided wherever their key is present
+        have hkids : ∀ p ∈ cfg.keys.zip vs, ∀ xv, dictGet (dictKvs x) p.1 = some xv → VDecides o env p.2 xv (acc p.2 xv) := by
+          -- no schema needed here: re-derive from `TreeOK` directly
+          have : ∀ (ts' : List (List Nat)) (vs' : List V), (∀ v ∈ vs', TreeOK pr o env root v) →
+              okFields (ts'.map PyVal.str) vs' (dictKvs x) = true →
+              ∀ p ∈ (ts'.map PyVal.str).zip vs', ∀ xv, dictGet (dictKvs x) p.1 = some xv →
+                VDecides o env p.2 xv (acc p.2 xv) := by
+            intro ts'
+            induction ts' with
+            | nil => intro vs' _ _ p hp; simp at hp
+            | cons t ts' ih =>
+              intro vs' hm hz p hp xv hg
+              cases vs' with
+              | nil => simp at hp
+              | cons v vs' =>
+                simp only [List.map_cons, okFields, Bool.and_eq_true] at hz
+                simp only [List.map_cons, List.zip_cons_cons, List.mem_cons] at hp
+                rcases hp with rfl | hp
+                · obtain ⟨q, hq, hqv⟩ := dictGet_mem _ _ _ hg
+                  have hjs : isJson xv = true := by rw [← hqv]; exact hjd.2 q hq
+                  have hokv : ok v xv = true := by simpa [hg] using hz.1
+                  exact (hm v (by simp) xv hjs hokv).1
+                · exact ih vs' (fun w hw => hm w (by simp [hw])) hz.2 p hp xv hg
+          rw [hks]
+          exact this ts vs hmem hokf
+        have := node_record_validator o env vid cfg vs x hx hoc haoc hco hkids
+        simpa [acc] using this
+      · intro j hj
+        simp only [toSchema] at hj
+        cases hi : toSchemaL pr none [] [] vs with
+        | error e => simp [hi, bind, Except.bind] at hj
+        | ok js =>
+          have hz := toSchemaL_spec pr none [] [] vs js hi
+          have hlj : js.length = vs.length := hz.length.symm
+          simp only [hi, bind, Except.bind, hks, labelsText_strs] at hj
+          rw [foldl_jset_nodup ts js [] hnd (fun t _ => rfl)] at hj
+          simp only [List.nil_append, Except.ok.injEq] at hj
+          subst hj
+          obtain ⟨hag, hprops, _⟩ := fields_decide pr o env root (max (sfuelL vs) 1) (dictKvs x) hjd.2 ts vs js hz hmem hokf
+            (Nat.le_max_left _ _)
+          have hrec := C11_record_schema root none cfg.failUnknown
+            (if cfg.kind = .typeddict then sortTexts (((ts.zip cfg.reqs).filter (·.2)).map (·.1))
+             else ((ts.zip cfg.reqs).filter (·.2)).map (·.1))
+            (ts.zip js) (fun j y => evalSchema root none (max (sfuelL vs) 1) j y == some true)
+            (max (sfuelL vs) 1) (Nat.le_max_right _ _) x hjd.1 hprops
+          -- rewrite the decided formula into `acc`
+          have hfst : (ts.zip js).map (·.1) = ts := zip_map_fst ts js (by omega)
+          have hknown : (dictKvs x).all (knownOrAllowed ((ts.zip js).map (·.1)) cfg.failUnknown) =
+              (dictKvs x).all (fun p => memL p.1 cfg.keys || !cfg.failUnknown) := by
+            apply all_congr_mem
+            intro p hp
+            obtain ⟨nm, hnm⟩ := hjd.1 p hp
+            simp only [knownOrAllowed, hnm, keyText, hfst, hks, memL_strs]
+          have hreq : (if cfg.kind = .typeddict then sortTexts (((ts.zip cfg.reqs).filter (·.2)).map (·.1))
+              else ((ts.zip cfg.reqs).filter (·.2)).map (·.1)).all (fun nm => dictHas (dictKvs x) (.str nm)) =
+              (((ts.zip cfg.reqs).filter (·.2)).map (·.1)).all (fun nm => dictHas (dictKvs x) (.str nm)) := by
+            split
+            · exact sortTexts_all _ _
+            · rfl
+          have hfields := fields_formula (fun j y => evalSchema root none (max (sfuelL vs) 1) j y == some true)
+            (dictKvs x) ts cfg.reqs vs js hlt hlr hlj hag
+          rw [hknown, hreq, hfields, ← hks] at hrec
+          simpa [acc, sfuel, recordObj] using hrec
   | .maybe .., hf, _, _, _ => by simp [frag] at hf
   | .lazy .., hf, _, _, _ => by simp [frag] at hf
   | .knr vid inner, hf, x, hx, hok => by
@@ -939,5 +1397,24 @@ example : isJson (.list 9 [.str [97], .int 3]) = true ∧ ok exTree (.list 9 [.s
 example : ok exTree (.list 9 [.str []]) = true ∧ acc exTree (.list 9 [.str []]) = false := by
   refine ⟨?_, ?_⟩ <;> simp [exTree, ok, okAll, acc, accAny, countAcc, predCheck, holds, PredK.call, lenCmp, pyLen,
     isListV, listItems, isNoneV, PyVal.ty, isNum]
+
+
+/-- a record validator of the fragment: `{"a": str, "b"?: List[int]}`, unknown keys rejected -/
+def exRecord : V :=
+  .record 10 { kind := .dictAny
+               keys := [.str [97], .str [98]]
+               reqs := [true, false]
+               cls := default
+               fieldNames := []
+               defaults := []
+               intoId := 0
+               into := fun _ => .none
+               oc := none
+               aoc := none
+               failUnknown := true
+               coerce := none }
+    [.scalar 11 .str none [] [] [], .list 12 (.scalar 13 .int none [] [] []) [] [] none]
+
+example : frag exRecord = true := by decide
 
 end Koda
